@@ -294,6 +294,41 @@ def exc_name(o):
     return type(o[1]).__name__
 
 
+def libpass_group(tier):
+    """libpass hashers: a stored hash given as BYTES with a byte spliced in (valid ASCII, valid non-ASCII, invalid UTF-8) never verifies"""
+    g = Group("libpass-altered-bytes", "libpass.hashers.*.verify/identify/needs_update", "SHA256Hasher, SHA512Hasher, PBKDF2SHA256Handler, PBKDF2SHA512Handler, BcryptSHA256Hasher, BcryptHasher and libpass.context.CryptContext x own hash as bytes x "
+              "one byte from {0xff, 0xfe, 0x80, 0xc3, 'A', 0xc3 0xa9} inserted at every position (quick: every 3rd) or appended: verify False or ValueError/TypeError, never True; str form of the unaltered hash verifies")
+    try:
+        from libpass.context import CryptContext as LCtx
+        from libpass.hashers.bcrypt import BcryptHasher, BcryptSHA256Hasher
+        from libpass.hashers.pbkdf2 import PBKDF2SHA256Handler, PBKDF2SHA512Handler
+        from libpass.hashers.sha_crypt import SHA256Hasher, SHA512Hasher
+    except Exception as err:  # noqa: BLE001
+        g.skipped.append(f"libpass not importable: {err}")
+        return g
+    hashers = [("SHA256Hasher", SHA256Hasher(rounds=1000)), ("SHA512Hasher", SHA512Hasher(rounds=1000)), ("PBKDF2SHA256Handler", PBKDF2SHA256Handler(rounds=1)), ("PBKDF2SHA512Handler", PBKDF2SHA512Handler(rounds=1)),
+               ("BcryptSHA256Hasher", BcryptSHA256Hasher(rounds=4)), ("BcryptHasher", BcryptHasher(rounds=4))]
+    step = 3 if tier == "quick" else 1
+    for nm, h in hashers:
+        hs = h.hash("pw-1")
+        hb = hs.encode()
+        ctx = LCtx([h])
+        g.case((nm, "unaltered"))
+        g.check(h.verify(hb, "pw-1") is True and h.verify(hs, "pw-1") is True, f"libpass-own:{nm}", "own hash (str / bytes) does not verify", {"hasher": nm, "hash": hs})
+        for ins in (b"\xff", b"\xfe", b"\x80", b"\xc3", b"A", b"\xc3\xa9"):
+            for pos in list(range(0, len(hb), step)) + [len(hb)]:
+                m = hb[:pos] + ins + hb[pos:]
+                g.case((nm, ins.hex(), pos))
+                w = {"hasher": "libpass." + nm, "original": hs, "mutant_bytes_hex": m.hex(), "inserted": ins.hex(), "position": pos}
+                for cname, fn in (("verify", lambda: h.verify(m, "pw-1")), ("ctx.verify", lambda: ctx.verify(m, "pw-1"))):
+                    o = call(fn)
+                    if o[0] == "exc":
+                        g.check(o[2], f"libpass-internal-error:{nm}:{exc_name(o)}:{cname}", f"{cname} raised {exc_name(o)} (neither ValueError nor TypeError)", dict(w, exception=repr(o[1])[:120]))
+                    else:
+                        g.check(o[1] is not True, f"libpass-altered-verifies:{nm}:{'invalid-utf8' if ins[0] >= 0x80 and ins != b'\xc3\xa9' else 'inserted'}", f"{cname} accepts a stored hash with a byte spliced in", w)
+    return g
+
+
 def build(tier, rng):
     logging.disable(logging.WARNING)  # passlib logs every unknown digest name met in mutated scram hashes
     infos, skipped = G.list_handlers()
@@ -643,6 +678,7 @@ def build(tier, rng):
         for g in fan.groups:
             g.t0 = now - T[key]  # Group.out() reports now - t0: the time this group's calls took
         groups += fan.groups
+    groups.append(libpass_group(tier))
     seen = set()
     for n in notes:
         k = re.sub(r"\{.*\}", "{..}", n)
